@@ -175,7 +175,7 @@ def run_case(case: dict) -> dict:
             for n in list(model.graph)[:3]:
                 tgt = n.outputs[0]
                 if tgt.shape is not None and len(tgt.shape) > 0:
-                    n.shard(cfg, tgt, axis=0, num_shards=2)
+                    n.shard(tgt, configuration=cfg, axis=0, num_shards=2)
                     inc("device_annotations")
         except Exception:  # noqa: BLE001
             pass
